@@ -142,7 +142,7 @@ class StartRequests(Observer):
                     args = item.get('args', [])
                     if len(args) >= 2:
                         key = (item['inst'], args[1])
-                        if key in self.ops and self.ops[key][0] == rec['t_us']:
+                        if key in self.ops and abs(self.ops[key][0] - rec['t_us']) < 1000:
                             prev = self.prev_ops.get(key)
                             if prev is None:
                                 del self.ops[key]
@@ -471,7 +471,14 @@ class StartRequests(Observer):
             plan_restart = max(self.ops.get((s.nick, app), (-1,))[0], t_dist if t_dist is not None else -1,
                                self.stops.get((s.nick, s.incarnation, app), -1),
                                self.handler_plans.get((s.nick, s.incarnation, app), -1))
-            if plan_restart < t_ab and sim.now_us - t_ab < 180 * US and seq > level:
+            # a restart of the application accepted around the failure: its start phase is a new plan that begins when the
+            # stop phase ends, i.e. possibly after the failure although the operation came before it
+            op_r = self.ops.get((s.nick, app))
+            restarting = bool(op_r and str(op_r[1]).endswith('restart_application') and op_r[0] > t_ab - 30 * US) or \
+                self.handler_plans.get((s.nick, s.incarnation, app), -10**12) > t_ab - 30 * US
+            if restarting:
+                self._probe('abort_with_restart_in_progress_skipped')
+            elif plan_restart < t_ab and sim.now_us - t_ab < 180 * US and seq > level:
                 self.v('C03', 'request-after-required-failure', dict(detail, failed=q, strategy=strategy,
                                                                      failed_level=level, start_sequence=seq),
                        'request-after-required-failure:%s' % strategy)
@@ -616,6 +623,12 @@ class StartRequests(Observer):
             self._probe('placement_with_pending')
         t_stop = self.stops.get((s.nick, s.incarnation, app), -1)
         t_handler = self.handler_plans.get((s.nick, s.incarnation, app), -1)
+        prev_op = self.prev_ops.get((s.nick, app))
+        if op and prev_op and op[0] - prev_op[0] < 60 * US:
+            # two accepted operations on the application within one plan duration: the second one is merged into (or
+            # ignored by) the job of the first, whose strategy goes on
+            self._probe('placement_attribution_ambiguous')
+            return
         if op and t_handler >= op[0]:
             op = None   # the plan comes from the failure handler: strategy of the rules
         if op and op[0] > t_dist:
